@@ -99,8 +99,10 @@ func (t *TaskInfo) MapNames(db, collection string) (string, string) {
 type PositionInfo struct {
 	StartTime int64
 	Time      int64
-	DataPair  *commonpb.KeyDataPair
-	Dropped   bool
+	// SourceTs is the end timestamp of the last replicated pack in the source channel, and the Time is its time in the target channel
+	SourceTs uint64
+	DataPair *commonpb.KeyDataPair
+	Dropped  bool
 }
 
 type TaskCollectionPosition struct {
